@@ -239,6 +239,16 @@ Definition parse_site_guards_value_errors (T : tables) : bool :=
          && all_controlled (t_hier T) (route_at T false "parse" [] (mkexn c Deliberate))))
     (classes_of (t_hier T)).
 
+(* the same for any site and any list of root classes: every class of the hierarchy below one of the roots, raised at
+   the site deliberately or by the runtime, leaves as a controlled exception (the conversion parse_input applies
+   to whatever the builder of an input's object raises) *)
+Definition site_guards (T : tables) (sname : string) (roots : list cls) : bool :=
+  forallb (fun c =>
+     negb (existsb (subclass (t_hier T) c) roots)
+     || (all_controlled (t_hier T) (route_at T false sname [] (mkexn c Primitive))
+         && all_controlled (t_hier T) (route_at T false sname [] (mkexn c Deliberate))))
+    (classes_of (t_hier T)).
+
 (* ---------------------------------------------------------------- witnesses (computed) *)
 (* deliberate raise statements whose routed outcome is not controlled: (site, function, class) *)
 Definition raise_leaks (T : tables) : list raise_row :=
